@@ -41,6 +41,8 @@ type Event struct {
 	Kind string
 	Name string
 	Args []Value
+	fn   Value // callee of a recorded go statement (nil for interface calls)
+	ran  bool
 }
 
 type Interp struct {
@@ -598,7 +600,11 @@ func (in *Interp) exec(fr *Frame, ins ssa.Instruction) {
 		if x.Call.IsInvoke() {
 			args = append([]Value{in.eval(fr, x.Call.Value)}, args...)
 		}
-		in.events = append(in.events, Event{Kind: "go", Name: name, Args: args})
+		var callee Value
+		if !x.Call.IsInvoke() {
+			callee = in.eval(fr, x.Call.Value)
+		}
+		in.events = append(in.events, Event{Kind: "go", Name: name, Args: args, fn: callee})
 	case *ssa.Store:
 		p := in.eval(fr, x.Addr).(Ptr)
 		in.store(p, in.eval(fr, x.Val))
